@@ -69,6 +69,85 @@ theorem const_argument_reads_expected : Gen.constArgumentIndex =
      ("builtinObjectAssign", "ArgumentList[0]"),
      ("builtinStringLastIndexOf", "ArgumentList[1]"), ("builtinStringLastIndexOf", "ArgumentList[1]")] := by decide
 
+/-- P4: the single-value type assertions `x.(T)` of package otto (each a possible "interface
+    conversion" run-time panic) are exactly the audited ones: payload assertions behind a class
+    dispatch (`obj.value.(*goSliceObject)` in the goSlice class functions, `obj.value.(argumentsObject)`
+    in the arguments class functions, …), `v.value.(*object)` behind a kind test, the array `length`
+    payload (kept uint32 by arrayDefineOwnProperty), compiler node kinds.  A NEW unchecked assertion —
+    e.g. one applied to a call's receiver — shows up here before any input reaches it. -/
+theorem unchecked_assertions_expected : Gen.uncheckedAssertions =
+    [("Value.Class", "v.value.(*object)"),
+     ("Value.IsFunction", "v.value.(*object)"),
+     ("Value.bool", "v.value.(bool)"),
+     ("Value.evaluateBreak", "v.value.(result)"),
+     ("Value.evaluateBreakContinue", "v.value.(result)"),
+     ("Value.exportPath", "lengthValue.value.(uint32)"),
+     ("Value.isArray", "v.value.(*object)"),
+     ("Value.isBooleanObject", "v.value.(*object)"),
+     ("Value.isDate", "v.value.(*object)"),
+     ("Value.isError", "v.value.(*object)"),
+     ("Value.isNumberObject", "v.value.(*object)"),
+     ("Value.isRegExp", "v.value.(*object)"),
+     ("Value.isStringObject", "v.value.(*object)"),
+     ("argumentsDefineOwnProperty", "obj.value.(argumentsObject)"),
+     ("argumentsDefineOwnProperty", "obj.value.(argumentsObject)"),
+     ("argumentsDelete", "obj.value.(argumentsObject)"),
+     ("argumentsDelete", "obj.value.(argumentsObject)"),
+     ("argumentsGet", "obj.value.(argumentsObject)"),
+     ("argumentsGetOwnProperty", "obj.value.(argumentsObject)"),
+     ("arrayDefineOwnProperty", "lengthValue.value.(uint32)"),
+     ("builtinJSONStringify", "spaceValue.value.(*object)"),
+     ("builtinJSONStringify", "value.value.(*object)"),
+     ("builtinJSONStringifyWalk", "value.object(…).value.(Value)"),
+     ("builtinJSONStringifyWalk", "value.value.(*object)"),
+     ("builtinNewFunctionNative", "cmplFunction.(*nodeFunctionLiteral)"),
+     ("compiler.parse", "cmpl.parseExpression(…).(*nodeFunctionLiteral)"),
+     ("compiler.parseExpression", "cmpl.parseExpression(…).(*nodeFunctionLiteral)"),
+     ("fnStash.clone", "s.dclStash.clone(…).(*dclStash)"),
+     ("goArrayDefineOwnProperty", "descriptor.value.(Value)"),
+     ("goArrayDefineOwnProperty", "obj.value.(*goArrayObject)"),
+     ("goArrayDefineOwnProperty", "obj.value.(*goArrayObject)"),
+     ("goArrayDelete", "obj.value.(*goArrayObject)"),
+     ("goArrayEnumerate", "obj.value.(*goArrayObject)"),
+     ("goArrayGetOwnProperty", "obj.value.(*goArrayObject)"),
+     ("goArrayGetOwnProperty", "obj.value.(*goArrayObject)"),
+     ("goArrayGetOwnProperty", "obj.value.(*goArrayObject)"),
+     ("goMapDefineOwnProperty", "descriptor.value.(Value)"),
+     ("goMapDefineOwnProperty", "obj.value.(*goMapObject)"),
+     ("goMapDelete", "obj.value.(*goMapObject)"),
+     ("goMapEnumerate", "obj.value.(*goMapObject)"),
+     ("goMapGetOwnProperty", "obj.value.(*goMapObject)"),
+     ("goMapGetOwnProperty", "obj.value.(*goMapObject)"),
+     ("goSliceDefineOwnProperty", "descriptor.value.(Value)"),
+     ("goSliceDefineOwnProperty", "descriptor.value.(Value)"),
+     ("goSliceDefineOwnProperty", "obj.value.(*goSliceObject)"),
+     ("goSliceDefineOwnProperty", "obj.value.(*goSliceObject)"),
+     ("goSliceDelete", "obj.value.(*goSliceObject)"),
+     ("goSliceEnumerate", "obj.value.(*goSliceObject)"),
+     ("goSliceGetOwnProperty", "obj.value.(*goSliceObject)"),
+     ("goSliceGetOwnProperty", "obj.value.(*goSliceObject)"),
+     ("goSliceGetOwnProperty", "obj.value.(*goSliceObject)"),
+     ("goStructCanPut", "obj.value.(*goStructObject)"),
+     ("goStructEnumerate", "obj.value.(*goStructObject)"),
+     ("goStructGetOwnProperty", "obj.value.(*goStructObject)"),
+     ("goStructMarshalJSON", "obj.value.(*goStructObject)"),
+     ("goStructPut", "obj.value.(*goStructObject)"),
+     ("jsonValue.UnmarshalJSON", "name.(string)"),
+     ("newContext", "rt.globalObject.property[…].value.(Value)"),
+     ("newContext", "rt.globalObject.property[…].value.(…).value.(*object)"),
+     ("newError", "in[…].(string)"),
+     ("newError", "in[…].(string)"),
+     ("objectDefineOwnProperty", "descriptor.value.(Value)"),
+     ("objectLength", "obj.get(…).value.(int)"),
+     ("objectLength", "obj.get(…).value.(int)"),
+     ("objectLength", "obj.get(…).value.(uint32)"),
+     ("runtime.cmplEvaluateNodeObjectLiteral", "prop.value.(*nodeFunctionLiteral)"),
+     ("runtime.cmplEvaluateNodeObjectLiteral", "prop.value.(*nodeFunctionLiteral)"),
+     ("runtime.cmplEvaluateNodeStatement", "variable.(*nodeVariableExpression)"),
+     ("runtime.convertCallParameter", "r.Interface(…).(TextUnmarshaler)"),
+     ("runtime.newErrorObject", "obj.value.(ottoError)"),
+     ("runtime.newErrorObjectError", "obj.value.(ottoError)")] := by decide
+
 /-- P3: explicit panics with a payload Run does not convert are confined to the known
     internal-invariant sites ("unknown node type", "here be dragons", stash bookkeeping); the bridged
     Go containers (type_go_*.go) left this list with fix bb377a4; a new one shows up here -/
